@@ -51,11 +51,25 @@ def real_env(extra=None):
     return env
 
 
+def scaled(timeout):
+    """time limits are written for an idle 16-core machine; on an oversubscribed machine (other checks, other
+    users) they are stretched by the load factor, and by 3 in the thorough tier.  A limit only guards against a
+    hang: a check that hits it reports a no-input violation, which on a loaded machine would be a false alarm."""
+    try:
+        load = os.getloadavg()[0]
+    except OSError:
+        load = 0.0
+    f = max(1.0, load / max(1, (os.cpu_count() or 16)))
+    if os.environ.get("VERIF_TIER") == "thorough" or "--tier thorough" in " ".join(sys.argv) or "thorough" in sys.argv:
+        f *= 3
+    return int(timeout * min(f, 12.0))
+
+
 def run_worker(script, payload, timeout=900, env_extra=None):
     """run harness/<script> with the real cohdl from REPO; JSON in on stdin, JSON out on stdout"""
     p = subprocess.run(
         [PY, os.path.join(VERIF, "harness", script)],
-        input=json.dumps(payload), capture_output=True, text=True, timeout=timeout, env=real_env(env_extra),
+        input=json.dumps(payload), capture_output=True, text=True, timeout=scaled(timeout), env=real_env(env_extra),
     )
     if p.returncode != 0:
         raise RuntimeError(f"worker {script} failed rc={p.returncode}\n{p.stderr[-4000:]}")
@@ -110,7 +124,7 @@ def ensure_coq_built(pid=None, quiet=True):
 
 
 def coqc(vfile, timeout=1200, extra_q=()):
-    args = ["timeout", str(timeout), "coqc", "-Q", os.path.join(COQ_DIR, "theories"), "Cohdl", "-w", "-all"]
+    args = ["timeout", str(scaled(timeout)), "coqc", "-Q", os.path.join(COQ_DIR, "theories"), "Cohdl", "-w", "-all"]
     for d, lp in extra_q:
         args += ["-Q", d, lp]
     args.append(vfile)
